@@ -102,6 +102,174 @@ theorem bufGet_append_new (b : List (Key × Pkt)) (k : Key) (q : Pkt) (h : bufHa
     simp only [bufGet, List.cons_append, List.find?_cons, h.1] at ih' ⊢
     exact ih'
 
+/-! ## Location Service at the requester: only `lsSend` / `origGuc` actions, CBF buffer untouched, location table changed
+only in the `ls_pending` flag of the sought address (or by a placeholder without PV for it) -/
+
+theorem lsRequest_acts (s : RSt) (a : Addr) (req : Bool) : ∀ act ∈ (lsRequest s a req).2, act = .lsSend a := by
+  unfold lsRequest; split <;> simp
+
+theorem lsRequest_buf (s : RSt) (a : Addr) (req : Bool) : (lsRequest s a req).1.buf = s.buf := by
+  unfold lsRequest; split <;> rfl
+
+theorem lsRequest_t (s : RSt) (a : Addr) (req : Bool) : (lsRequest s a req).1.t = ensure s.t a := by
+  unfold lsRequest; split <;> rfl
+
+/-- `t'` is `t` up to the `ls_pending` flag of `a`'s entry, or has a placeholder (no PV, empty duplicate packet list) for `a`
+where `t` has no entry -/
+def LsSim (a : Addr) (t t' : Table) : Prop :=
+  (Uniq t → Uniq t') ∧ (∀ b, b ≠ a → lookup t' b = lookup t b) ∧
+  (∀ e, lookup t a = some e → ∃ f, lookup t' a = some { e with lsPending := f }) ∧
+  (lookup t a = none → lookup t' a = none ∨ ∃ f, lookup t' a = some { lsPending := f })
+
+theorem lsSim_refl (a : Addr) (t : Table) : LsSim a t t :=
+  ⟨id, fun _ _ => rfl, fun e h => ⟨e.lsPending, h⟩, fun h => Or.inl h⟩
+
+theorem lsSim_trans {a : Addr} {t t' t'' : Table} (h1 : LsSim a t t') (h2 : LsSim a t' t'') : LsSim a t t'' := by
+  obtain ⟨a1, a2, a3, a4⟩ := h1
+  obtain ⟨b1, b2, b3, b4⟩ := h2
+  refine ⟨fun h => b1 (a1 h), fun b hb => by rw [b2 b hb, a2 b hb], fun e he => ?_, fun hn => ?_⟩
+  · obtain ⟨f, hf⟩ := a3 e he
+    obtain ⟨g, hg⟩ := b3 _ hf
+    exact ⟨g, hg⟩
+  · rcases a4 hn with h | ⟨f, hf⟩
+    · exact b4 h
+    · obtain ⟨g, hg⟩ := b3 _ hf
+      exact Or.inr ⟨g, hg⟩
+
+theorem lsSim_ensure (a : Addr) (t : Table) : LsSim a t (ensure t a) := by
+  cases h : lookup t a with
+  | some e =>
+    simp only [ensure, h]
+    refine ⟨fun hu => uniq_insert _ _ _ hu, fun b hb => lookup_insert_ne _ _ _ _ hb, fun e' he' => ?_,
+      fun hn => by rw [h] at hn; cases hn⟩
+    rw [h] at he'; cases he'; exact ⟨true, lookup_insert_self _ _ _⟩
+  | none =>
+    simp only [ensure, h]
+    refine ⟨fun hu => uniq_insert _ _ _ hu, fun b hb => lookup_insert_ne _ _ _ _ hb, fun e' he' => ?_,
+      fun _ => Or.inr ⟨true, lookup_insert_self _ _ _⟩⟩
+    rw [h] at he'; cases he'
+
+theorem lsSim_clearLs (a : Addr) (t : Table) : LsSim a t (clearLs t a) := by
+  cases h : lookup t a with
+  | some e =>
+    simp only [clearLs, h]
+    refine ⟨fun hu => uniq_insert _ _ _ hu, fun b hb => lookup_insert_ne _ _ _ _ hb, fun e' he' => ?_,
+      fun hn => by rw [h] at hn; cases hn⟩
+    rw [h] at he'; cases he'; exact ⟨false, lookup_insert_self _ _ _⟩
+  | none =>
+    simp only [clearLs, h]
+    exact lsSim_refl _ _
+
+theorem flushReqs_spec (a : Addr) : ∀ (n : Nat) (s : RSt),
+    (∀ act ∈ (flushReqs s a n).2, act = .lsSend a ∨ act = .origGuc a) ∧ (flushReqs s a n).1.buf = s.buf ∧
+    LsSim a s.t (flushReqs s a n).1.t := by
+  intro n
+  induction n with
+  | zero => intro s; exact ⟨by simp [flushReqs], rfl, lsSim_refl _ _⟩
+  | succ n ih =>
+    intro s
+    have step : ∀ (r : RSt × List Act), (∀ act ∈ r.2, act = .lsSend a ∨ act = .origGuc a) → r.1.buf = s.buf →
+        LsSim a s.t r.1.t →
+        (∀ act ∈ ((flushReqs r.1 a n).1, r.2 ++ (flushReqs r.1 a n).2).2, act = .lsSend a ∨ act = .origGuc a) ∧
+        ((flushReqs r.1 a n).1, r.2 ++ (flushReqs r.1 a n).2).1.buf = s.buf ∧
+        LsSim a s.t ((flushReqs r.1 a n).1, r.2 ++ (flushReqs r.1 a n).2).1.t := by
+      intro r h1 h2 h3
+      obtain ⟨i1, i2, i3⟩ := ih r.1
+      refine ⟨?_, by simp only []; rw [i2, h2], lsSim_trans h3 i3⟩
+      intro act hact
+      rcases List.mem_append.1 hact with h | h
+      · exact h1 act h
+      · exact i1 act h
+    have hls : (∀ act ∈ (lsRequest s a true).2, act = Act.lsSend a ∨ act = Act.origGuc a) ∧
+        (lsRequest s a true).1.buf = s.buf ∧ LsSim a s.t (lsRequest s a true).1.t :=
+      ⟨fun act h => Or.inl (lsRequest_acts s a true act h), lsRequest_buf s a true,
+        by rw [lsRequest_t]; exact lsSim_ensure a s.t⟩
+    simp only [flushReqs]
+    cases hl : lookup s.t a with
+    | none => exact step _ hls.1 hls.2.1 hls.2.2
+    | some e =>
+      simp only []
+      cases hp : e.lsPending with
+      | true => simp only [if_true]; exact step _ hls.1 hls.2.1 hls.2.2
+      | false =>
+        simp only [Bool.false_eq_true, if_false]
+        exact step (s, [.origGuc a]) (by simp) rfl (lsSim_refl _ _)
+
+theorem lsComplete_spec (s : RSt) (a : Addr) :
+    (∀ act ∈ (lsComplete s a).2, act = .lsSend a ∨ act = .origGuc a) ∧ (lsComplete s a).1.buf = s.buf ∧
+    LsSim a s.t (lsComplete s a).1.t := by
+  unfold lsComplete
+  obtain ⟨h1, h2, h3⟩ := flushReqs_spec a ((lsBufGet s.lsBuf a).getD 0)
+    { s with t := clearLs s.t a, lsCnt := s.lsCnt.filter (fun x => !(x == a)), lsBuf := lsBufDel s.lsBuf a }
+  exact ⟨h1, h2, lsSim_trans (lsSim_clearLs a s.t) h3⟩
+
+/-- without a pending Location Service for `a` (no buffered request) the completion does nothing visible -/
+theorem lsComplete_no_pending (s : RSt) (a : Addr) (h : (lsBufGet s.lsBuf a).getD 0 = 0) : (lsComplete s a).2 = [] := by
+  unfold lsComplete; rw [h]; rfl
+
+theorem flushReqs_known (a : Addr) (e : Entry) : ∀ (n : Nat) (s : RSt), lookup s.t a = some e → e.lsPending = false →
+    flushReqs s a n = (s, List.replicate n (.origGuc a)) := by
+  intro n
+  induction n with
+  | zero => intro s _ _; rfl
+  | succ n ih =>
+    intro s hl hp
+    simp only [flushReqs, hl, hp, Bool.false_eq_true, if_false, ih s hl hp, List.replicate_succ]
+    rfl
+
+theorem lsBufGet_del (b : List (Addr × Nat)) (a : Addr) : lsBufGet (lsBufDel b a) a = none := by
+  unfold lsBufGet lsBufDel
+  have : (b.filter (fun x => !(x.1 == a))).find? (fun x => x.1 == a) = none := by
+    rw [List.find?_eq_none]
+    intro x hx
+    have := (List.mem_filter.1 hx).2
+    simpa using this
+  rw [this]; rfl
+
+/-- completion with the sought entry present: every buffered request is re-submitted exactly once, the pending flag, the
+counter and the buffer of `a` are gone (so a second LS reply flushes nothing) -/
+theorem lsComplete_known (s : RSt) (a : Addr) (e : Entry) (h : lookup s.t a = some e) :
+    (lsComplete s a).2 = List.replicate ((lsBufGet s.lsBuf a).getD 0) (.origGuc a) ∧
+    lookup (lsComplete s a).1.t a = some { e with lsPending := false } ∧
+    lsBufGet (lsComplete s a).1.lsBuf a = none ∧ (lsComplete s a).1.lsCnt.contains a = false := by
+  unfold lsComplete
+  have hl : lookup (clearLs s.t a) a = some { e with lsPending := false } := by
+    simp only [clearLs, h]; exact lookup_insert_self _ _ _
+  rw [flushReqs_known a { e with lsPending := false } _ _ hl rfl]
+  refine ⟨rfl, hl, lsBufGet_del _ _, ?_⟩
+  simp
+
+/-- what survives `LsSim` of a live entry: everything but the `ls_pending` flag -/
+theorem lsSim_live {a' a : Addr} {t t' : Table} {e : Entry} (h : LsSim a' t t') (hl : lookup t a = some e) :
+    ∃ e', lookup t' a = some e' ∧ e'.hasPV = e.hasPV ∧ e'.pv = e.pv ∧ e'.dpl = e.dpl ∧ e'.isNeighbour = e.isNeighbour := by
+  by_cases ha : a = a'
+  · subst ha
+    obtain ⟨f, hf⟩ := h.2.2.1 e hl
+    exact ⟨_, hf, rfl, rfl, rfl, rfl⟩
+  · exact ⟨e, by rw [h.2.1 a ha]; exact hl, rfl, rfl, rfl, rfl⟩
+
+/-- … and backwards: an entry with a position vector was there before -/
+theorem lsSim_back {a' a : Addr} {t t' : Table} {e' : Entry} (h : LsSim a' t t') (hl : lookup t' a = some e')
+    (hh : e'.hasPV = true) :
+    ∃ e, lookup t a = some e ∧ e'.hasPV = e.hasPV ∧ e'.pv = e.pv ∧ e'.dpl = e.dpl ∧ e'.isNeighbour = e.isNeighbour := by
+  by_cases ha : a = a'
+  · subst ha
+    cases hb : lookup t a with
+    | some e =>
+      obtain ⟨f, hf⟩ := h.2.2.1 e hb
+      rw [hl] at hf; cases hf
+      exact ⟨e, rfl, rfl, rfl, rfl, rfl⟩
+    | none =>
+      rcases h.2.2.2 hb with hn | ⟨f, hf⟩
+      · rw [hl] at hn; cases hn
+      · rw [hl] at hf; cases hf; cases hh
+  · exact ⟨e', by rw [← h.2.1 a ha]; exact hl, rfl, rfl, rfl, rfl⟩
+
+theorem ok_other {c : RCfg} {s s' : RSt} {p : Pkt} {act : Act} {a : Addr} (h : act = .lsSend a ∨ act = .origGuc a) :
+    ActOK c s s' p act := by
+  rcases h with rfl | rfl <;>
+    exact ⟨fun _ hq => (by cases hq), fun _ _ hq => (by cases hq), fun _ _ _ hq => (by cases hq), fun _ hq => (by cases hq)⟩
+
 /-- everything the handler can emit for an accepted packet -/
 theorem handle_acts (c : RCfg) (hg : c.gacFix = true) (s : RSt) (p : Pkt) (env : Env) :
     ∀ act ∈ (handle c s p env).2, ActOK c s (handle c s p env).1 p act := by
@@ -140,6 +308,10 @@ theorem handle_acts (c : RCfg) (hg : c.gacFix = true) (s : RSt) (p : Pkt) (env :
         fun _ _ => ⟨hk, h⟩⟩
     · subst hact; exact ok_send (by omega) (Or.inl (by cases p; simp only [fwd] at *; try simp_all))
   case lsRep =>
+    by_cases hme : mid p.de = mid c.loct.self
+    · simp only [hme, if_true] at hact ⊢
+      exact ok_other ((lsComplete_spec s p.so).1 act hact)
+    simp only [hme, if_false] at hact ⊢
     repeat' split at hact
     all_goals simp at hact
     · subst hact; exact ok_send (by omega) (Or.inr ⟨Or.inr hk, rfl⟩)
@@ -211,16 +383,28 @@ theorem recvR_acts (c : RCfg) (hg : c.gacFix = true) (s : RSt) (p : Pkt) (env : 
     exact ⟨handle_acts c hg _ p env act hact, by omega, trivial⟩
 
 
-/-- the handler never touches the location table (only `recv` does) -/
-theorem handle_t (c : RCfg) (s : RSt) (p : Pkt) (env : Env) : (handle c s p env).1.t = s.t := by
+/-- the handler never touches the location table (only `recv` does) - except for an LS reply addressed to this station -/
+theorem handle_t (c : RCfg) (s : RSt) (p : Pkt) (env : Env) (h : ¬ (p.kind = .lsRep ∧ mid p.de = mid c.loct.self)) :
+    (handle c s p env).1.t = s.t := by
   cases hk : p.kind <;> simp only [handle, hk]
   case gbc =>
     simp only [forwardGbc, cbfForward]
     repeat' split
     all_goals rfl
+  case lsRep =>
+    have hme : ¬ mid p.de = mid c.loct.self := fun hx => h ⟨hk, hx⟩
+    simp only [hme, if_false]
+    repeat' split
+    all_goals rfl
   all_goals
     repeat' split
     all_goals rfl
+
+theorem handle_sim (c : RCfg) (s : RSt) (p : Pkt) (env : Env) : LsSim p.so s.t (handle c s p env).1.t := by
+  by_cases h : p.kind = .lsRep ∧ mid p.de = mid c.loct.self
+  · simp only [handle, h.1, h.2, if_true]
+    exact (lsComplete_spec s p.so).2.2
+  · rw [handle_t c s p env h]; exact lsSim_refl _ _
 
 theorem recv_dad_table (c : Cfg) (t : Table) (k : Kind) (a : Addr) (p : PV) (sn now : Nat)
     (h : (recv c t k a p sn now).2 = .dad) : (recv c t k a p sn now).1 = t := by
@@ -233,10 +417,13 @@ theorem recv_dad_table (c : Cfg) (t : Table) (k : Kind) (a : Addr) (p : PV) (sn 
     · simp only [hdup, if_true] at h; cases h
     · simp only [hdup, if_false] at h; cases h
 
-theorem recvR_t (c : RCfg) (s : RSt) (p : Pkt) (env : Env) (now : Nat) :
-    (recvR c s p env now).1.t =
-      if p.rhl > p.mhl then s.t else (recv c.loct s.t p.kind p.so p.soPV p.sn now).1 := by
-  unfold recvR
+/-- the location table after the hop-limit check, DAD and the location table update of a reception (before the handler) -/
+def recvT (c : RCfg) (s : RSt) (p : Pkt) (now : Nat) : Table :=
+  if p.rhl > p.mhl then s.t else (recv c.loct s.t p.kind p.so p.soPV p.sn now).1
+
+theorem recvR_t (c : RCfg) (s : RSt) (p : Pkt) (env : Env) (now : Nat)
+    (h : ¬ (p.kind = .lsRep ∧ mid p.de = mid c.loct.self)) : (recvR c s p env now).1.t = recvT c s p now := by
+  unfold recvR recvT
   by_cases h1 : p.rhl > p.mhl
   · simp [h1]
   simp only [h1, if_false]
@@ -249,7 +436,53 @@ theorem recvR_t (c : RCfg) (s : RSt) (p : Pkt) (env : Env) (now : Nat) :
     split
     · simp only [cbfDiscard]; split <;> rfl
     · rfl
-  case ok => simp only []; exact handle_t c _ p env
+  case ok => simp only []; exact handle_t c _ p env h
+
+theorem recvR_sim (c : RCfg) (s : RSt) (p : Pkt) (env : Env) (now : Nat) :
+    LsSim p.so (recvT c s p now) (recvR c s p env now).1.t := by
+  by_cases h : p.kind = .lsRep ∧ mid p.de = mid c.loct.self
+  · unfold recvR recvT
+    by_cases h1 : p.rhl > p.mhl
+    · simp only [h1, if_true]; exact lsSim_refl _ _
+    simp only [h1, if_false]
+    cases hr : (recv c.loct s.t p.kind p.so p.soPV p.sn now).2
+    case dad =>
+      simp only []
+      rw [recv_dad_table _ _ _ _ _ _ _ hr]; exact lsSim_refl _ _
+    case dup =>
+      simp only []
+      have : ¬ (p.kind = .gbc ∧ c.cbf = true ∧ c.cbfFix = true) := by
+        intro hx; rw [h.1] at hx; cases hx.1
+      simp only [this, if_false]; exact lsSim_refl _ _
+    case ok => simp only []; exact handle_sim c { s with t := _ } p env
+  · rw [recvR_t c s p env now h]; exact lsSim_refl _ _
+
+theorem uniq_recvT (c : RCfg) (s : RSt) (p : Pkt) (now : Nat) (hu : Uniq s.t) : Uniq (recvT c s p now) := by
+  unfold recvT; split
+  · exact hu
+  · exact uniq_recv _ _ _ _ _ _ _ hu
+
+/-- a reception that transmits something did not touch the table in the handler -/
+theorem recvR_t_of_send (c : RCfg) (s : RSt) (p : Pkt) (env : Env) (now : Nat) (q : Pkt)
+    (hq : Act.send q ∈ (recvR c s p env now).2) : (recvR c s p env now).1.t = recvT c s p now := by
+  by_cases h : p.kind = .lsRep ∧ mid p.de = mid c.loct.self
+  · exfalso
+    unfold recvR at hq
+    by_cases h1 : p.rhl > p.mhl
+    · simp [h1] at hq
+    simp only [h1, if_false] at hq
+    cases hr : (recv c.loct s.t p.kind p.so p.soPV p.sn now).2
+    case dad => simp [hr] at hq
+    case dup =>
+      simp only [hr] at hq
+      have : ¬ (p.kind = .gbc ∧ c.cbf = true ∧ c.cbfFix = true) := by
+        intro hx; rw [h.1] at hx; cases hx.1
+      simp [this] at hq
+    case ok =>
+      simp only [hr] at hq
+      simp only [handle, h.1, h.2, if_true] at hq
+      rcases (lsComplete_spec _ p.so).1 _ hq with hc | hc <;> cases hc
+  · exact recvR_t c s p env now h
 
 theorem fire_t (s : RSt) (k : Key) : (fire s k).1.t = s.t := by
   unfold fire; split <;> rfl
@@ -301,12 +534,55 @@ theorem dplPush_keeps (L : Nat) (pre post : List Nat) (sn x : Nat) (h : post.len
 def ROpOK (a : Addr) (B lim : Nat) : ROp → Prop
   | .rx p _ now => Win B now ∧ now ≤ lim ∧ (p.so = a → Win B p.soPV.time)
   | .fire _ => True
+  | .lsreq _ _ => True
 
 /-- number of multi-hop packets of `a` in a history segment (upper bound for the sequence numbers accepted from `a`) -/
 def countRx (a : Addr) : List ROp → Nat
   | [] => 0
   | .rx p _ _ :: r => (if p.so = a ∧ p.kind.singleHop = false then 1 else 0) + countRx a r
   | .fire _ :: r => countRx a r
+  | .lsreq _ _ :: r => countRx a r
+
+/-- the live-entry step of a reception, on the table before the handler -/
+theorem rlive_rx (c : RCfg) (hv : c.loct.v = {}) (a : Addr) (B lim : Nat) (s : RSt) (e : Entry) (p : Pkt) (env : Env)
+    (now : Nat) (hu : Uniq s.t) (hl : lookup s.t a = some e) (hh : e.hasPV = true) (hw : Win B e.pv.time)
+    (hlim : lim ≤ e.pv.time + c.loct.lifetimeMs) (hop : ROpOK a B lim (.rx p env now)) :
+    ∃ e', lookup (recvT c s p now) a = some e' ∧ e'.hasPV = true ∧ e.pv.time ≤ e'.pv.time ∧ Win B e'.pv.time ∧
+      (e'.dpl = e.dpl ∨ (p.so = a ∧ p.kind.singleHop = false ∧ p.sn ∉ e.dpl ∧
+        e'.dpl = dplPush c.loct.dplLen e.dpl p.sn)) := by
+  obtain ⟨hn, hn2, hpw⟩ := hop
+  simp only [recvT]
+  by_cases h1 : p.rhl > p.mhl
+  · simp only [h1, if_true]; exact ⟨e, hl, hh, Nat.le_refl _, hw, Or.inl rfl⟩
+  simp only [h1, if_false]
+  have hstep : (recv c.loct s.t p.kind p.so p.soPV p.sn now).1 = step c.loct s.t (.pkt p.kind p.so p.soPV p.sn now) := rfl
+  obtain ⟨e', r1, r2, _, r4, r5, _, _⟩ := live_step c.loct hv a B lim s.t e (.pkt p.kind p.so p.soPV p.sn now) hu hl hh hw hlim
+    ⟨hn, hn2, hpw⟩
+  rw [← hstep] at r1
+  refine ⟨e', r1, r2, r4, r5, ?_⟩
+  have hf : fresh c.loct now e = true := (fresh_iff_window c.loct hv B now e hh hw hn).2 (by omega)
+  by_cases hd : mid p.so = mid c.loct.self
+  · rw [recv_dad _ _ _ _ _ _ _ hd, hl] at r1; cases r1; exact Or.inl rfl
+  by_cases hb : p.so = a
+  · subst hb
+    rw [lookup_recv_self c.loct hv s.t p.kind p.so p.soPV p.sn now hd hu] at r1
+    simp only [selfOutcome, hl, keep_of_true hf] at r1
+    by_cases hdup : (entryStep c.loct (some e) p.kind p.soPV p.sn).2 = .dup
+    · simp only [hdup, if_true] at r1; cases r1; exact Or.inl rfl
+    · simp only [hdup, if_false] at r1
+      obtain ⟨heq, _⟩ := keep_some r1
+      cases heq
+      rw [entryStep_dpl c.loct hv]
+      by_cases hcond : p.kind.singleHop = true ∨ p.sn ∈ e.dpl
+      · rw [if_pos hcond]; exact Or.inl rfl
+      · rw [if_neg hcond]
+        have hs : p.kind.singleHop = false := by
+          cases h : p.kind.singleHop with
+          | false => rfl
+          | true => exact absurd (Or.inl h) hcond
+        exact Or.inr ⟨rfl, hs, fun h => hcond (Or.inr h), rfl⟩
+  · rw [lookup_recv_ne c.loct hv s.t p.kind p.so a p.soPV p.sn now hd (Ne.symm hb) hu, hl, keep_of_true hf] at r1
+    cases r1; exact Or.inl rfl
 
 theorem rlive_step (c : RCfg) (hv : c.loct.v = {}) (a : Addr) (B lim : Nat) (s : RSt) (e : Entry) (op : ROp)
     (hu : Uniq s.t) (hl : lookup s.t a = some e) (hh : e.hasPV = true) (hw : Win B e.pv.time)
@@ -319,40 +595,21 @@ theorem rlive_step (c : RCfg) (hv : c.loct.v = {}) (a : Addr) (B lim : Nat) (s :
   | fire k =>
     simp only [rstep, fire_t]
     exact ⟨e, hl, hh, Nat.le_refl _, hw, hu, Or.inl rfl⟩
+  | lsreq a' req =>
+    simp only [rstep, lsRequest_t]
+    obtain ⟨e', h1, h2, h3, h4, _⟩ := lsSim_live (lsSim_ensure a' s.t) hl
+    exact ⟨e', h1, by rw [h2]; exact hh, by rw [h3]; exact Nat.le_refl _, by rw [h3]; exact hw,
+      (lsSim_ensure a' s.t).1 hu, Or.inl h4⟩
   | rx p env now =>
-    obtain ⟨hn, hn2, hpw⟩ := hop
-    simp only [rstep, recvR_t]
-    by_cases h1 : p.rhl > p.mhl
-    · simp only [h1, if_true]; exact ⟨e, hl, hh, Nat.le_refl _, hw, hu, Or.inl rfl⟩
-    simp only [h1, if_false]
-    have hstep : (recv c.loct s.t p.kind p.so p.soPV p.sn now).1 = step c.loct s.t (.pkt p.kind p.so p.soPV p.sn now) := rfl
-    obtain ⟨e', r1, r2, _, r4, r5, _, _⟩ := live_step c.loct hv a B lim s.t e (.pkt p.kind p.so p.soPV p.sn now) hu hl hh hw hlim
-      ⟨hn, hn2, hpw⟩
-    rw [← hstep] at r1
-    refine ⟨e', r1, r2, r4, r5, uniq_recv _ _ _ _ _ _ _ hu, ?_⟩
-    have hf : fresh c.loct now e = true := (fresh_iff_window c.loct hv B now e hh hw hn).2 (by omega)
-    by_cases hd : mid p.so = mid c.loct.self
-    · rw [recv_dad _ _ _ _ _ _ _ hd, hl] at r1; cases r1; exact Or.inl rfl
-    by_cases hb : p.so = a
-    · subst hb
-      rw [lookup_recv_self c.loct hv s.t p.kind p.so p.soPV p.sn now hd hu] at r1
-      simp only [selfOutcome, hl, keep_of_true hf] at r1
-      by_cases hdup : (entryStep c.loct (some e) p.kind p.soPV p.sn).2 = .dup
-      · simp only [hdup, if_true] at r1; cases r1; exact Or.inl rfl
-      · simp only [hdup, if_false] at r1
-        obtain ⟨heq, _⟩ := keep_some r1
-        cases heq
-        rw [entryStep_dpl c.loct hv]
-        by_cases hcond : p.kind.singleHop = true ∨ p.sn ∈ e.dpl
-        · rw [if_pos hcond]; exact Or.inl rfl
-        · rw [if_neg hcond]
-          have hs : p.kind.singleHop = false := by
-            cases h : p.kind.singleHop with
-            | false => rfl
-            | true => exact absurd (Or.inl h) hcond
-          exact Or.inr ⟨p, env, now, rfl, rfl, hs, fun h => hcond (Or.inr h), rfl⟩
-    · rw [lookup_recv_ne c.loct hv s.t p.kind p.so a p.soPV p.sn now hd (Ne.symm hb) hu, hl, keep_of_true hf] at r1
-      cases r1; exact Or.inl rfl
+    simp only [rstep]
+    obtain ⟨e1, r1, r2, r3, r4, r6⟩ := rlive_rx c hv a B lim s e p env now hu hl hh hw hlim hop
+    have hsim := recvR_sim c s p env now
+    obtain ⟨e', h1, h2, h3, h4, _⟩ := lsSim_live hsim r1
+    refine ⟨e', h1, by rw [h2]; exact r2, by rw [h3]; exact r3, by rw [h3]; exact r4,
+      hsim.1 (uniq_recvT c s p now hu), ?_⟩
+    rcases r6 with h | ⟨g1, g2, g3, g4⟩
+    · exact Or.inl (by rw [h4, h])
+    · exact Or.inr ⟨p, env, now, rfl, g1, g2, g3, by rw [h4, g4]⟩
 
 
 /-- what is claimed about one operation of a history for the packet identity `(a, sn)`:
@@ -361,6 +618,7 @@ def Quiet (a : Addr) (sn : Nat) (op : ROp) (acts : List Act) : Prop :=
   match op with
   | .rx p _ _ => p.so = a → p.sn = sn → p.kind.singleHop = false → ∀ act ∈ acts, act = .cancel (a, sn)
   | .fire _ => True
+  | .lsreq _ _ => True
 
 /-- `AllQuiet a sn ops log`: every operation (paired with its action list) is quiet for `(a, sn)` -/
 def AllQuiet (a : Addr) (sn : Nat) : List ROp → List (List Act) → Prop
@@ -387,6 +645,7 @@ theorem window_quiet (c : RCfg) (hv : c.loct.v = {}) (hg : c.gacFix = true) (a :
     · -- the operation itself
       cases op with
       | fire k => simp [Quiet]
+      | lsreq a' req => simp [Quiet]
       | rx p env now =>
         simp only [Quiet, rstep]
         intro h1 h2 h3
@@ -401,6 +660,7 @@ theorem window_quiet (c : RCfg) (hv : c.loct.v = {}) (hg : c.gacFix = true) (a :
       · refine ih _ e' lim pre post r5 r1 r2 r4 (by omega) (by rw [hsame, hdpl]) ?_ hops'
         cases op with
         | fire k => simpa [countRx] using hcnt
+        | lsreq a' req => simpa [countRx] using hcnt
         | rx p env now => simp only [countRx] at hcnt; omega
       · have hc1 : post.length + 1 + countRx a r ≤ c.loct.dplLen - 1 := by
           simp only [countRx, hso, hm, and_self, if_true] at hcnt; omega
@@ -416,19 +676,23 @@ theorem dplPush_ends (L : Nat) (d : List Nat) (sn : Nat) : ∃ pre, dplPush L d 
   · exact ⟨d, rfl⟩
 
 /-- an accepted multi-hop packet leaves its sequence number as the newest element of its source's duplicate packet list
-(if the source's entry survives the reception, i.e. its PV is not older than the lifetime) -/
+(if the source's entry survives the reception, i.e. its PV is not older than the lifetime; `hasPV` excludes the Location
+Service placeholder that an LS reply with an expired PV can leave behind at the requester) -/
 theorem accepted_sn_recorded (c : RCfg) (hv : c.loct.v = {}) (s : RSt) (p : Pkt) (env : Env) (now : Nat) (e' : Entry)
     (hu : Uniq s.t) (hm : p.kind.singleHop = false) (hle : p.rhl ≤ p.mhl)
     (hok : (recv c.loct s.t p.kind p.so p.soPV p.sn now).2 = .ok)
-    (h' : lookup (recvR c s p env now).1.t p.so = some e') : ∃ pre, e'.dpl = pre ++ p.sn :: [] := by
+    (h' : lookup (recvR c s p env now).1.t p.so = some e') (hpv : e'.hasPV = true) :
+    ∃ pre, e'.dpl = pre ++ p.sn :: [] := by
   have hd : mid p.so ≠ mid c.loct.self := by
     intro hd; rw [recv_dad _ _ _ _ _ _ _ hd] at hok; cases hok
-  rw [recvR_t, if_neg (by omega), lookup_recv_self c.loct hv s.t p.kind p.so p.soPV p.sn now hd hu] at h'
+  obtain ⟨e0, h0, _, _, hdpl, _⟩ := lsSim_back (recvR_sim c s p env now) h' hpv
+  rw [hdpl]
+  rw [recvT, if_neg (by omega), lookup_recv_self c.loct hv s.t p.kind p.so p.soPV p.sn now hd hu] at h0
   rw [recv_res c.loct hv s.t p.kind p.so p.soPV p.sn now hd hu] at hok
   by_cases hdup : (selfOutcome c.loct s.t p.kind p.so p.soPV p.sn now).2 = .dup
   · simp [hdup] at hok
-  simp only [hdup, if_false] at h'
-  obtain ⟨heq, _⟩ := keep_some h'
+  simp only [hdup, if_false] at h0
+  obtain ⟨heq, _⟩ := keep_some h0
   cases heq
   simp only [selfOutcome] at hdup ⊢
   cases hold : keep (fresh c.loct now) (lookup s.t p.so) with
